@@ -54,12 +54,22 @@ pub fn compress_zlib(data: &[u8]) -> ZbsdiffResult<Vec<u8>> {
 
 /// Decompress zlib-compressed data
 pub fn decompress_zlib(data: &[u8]) -> ZbsdiffResult<Vec<u8>> {
-    let mut decoder = ZlibDecoder::new(data);
+    // No block of a patch is larger than the sizes ZbsdiffHeader::validate accepts (1 GB):
+    // stop inflating there instead of following a zlib stream wherever it leads
+    const MAX_DECOMPRESSED_SIZE: u64 = 1_000_000_000;
+
+    let mut decoder = ZlibDecoder::new(data).take(MAX_DECOMPRESSED_SIZE + 1);
     let mut decompressed = Vec::new();
 
     decoder
         .read_to_end(&mut decompressed)
         .map_err(ZbsdiffError::decompression_error)?;
+
+    if decompressed.len() as u64 > MAX_DECOMPRESSED_SIZE {
+        return Err(ZbsdiffError::decompression_error(std::io::Error::other(
+            format!("decompressed data exceeds {MAX_DECOMPRESSED_SIZE} bytes"),
+        )));
+    }
 
     Ok(decompressed)
 }
